@@ -39,6 +39,7 @@ def handle (j : Json) : Except String Json := do
   | "parse_spec" => Driver.parseSpec j
   | "prec" => Driver.prec j
   | "prec_expr" => Driver.precExpr j
+  | "build_expr" => Driver.buildExprOp j
   | "time_expr" => Driver.timeExpr j
   | "default_order" => Driver.defaultOrder j
   | _ => throw s!"unknown op {op}"
